@@ -1053,7 +1053,32 @@ def ext_str_starts_with(e, m, args):
     raise Unsupported("starts_with pattern %r" % (pat,))
 
 
+def ext_opt_unwrap(e, m, args):
+    o = args[0]
+    if o[0] != "Some":
+        e.violations.append({"kind": "panic", "message": "called `Option::%s()` on a `None` value" % m.group(1), "function": "?", "model": e.model_inputs() if e.check() else None})
+        raise PanicFound("Option::%s on None" % m.group(1), None)
+    return o[1]
+
+
+def ext_opt_mutators(e, m, args):
+    r = args[0]
+    old = e.read_path(r.frame, r.local, list(r.proj))
+    kind = m.group(1)
+    if kind == "take":
+        e.write_path(r.frame, r.local, list(r.proj), ("None",))
+        return old
+    if kind == "replace":
+        e.write_path(r.frame, r.local, list(r.proj), ("Some", args[1]))
+        return old
+    if kind == "insert" or (kind == "get_or_insert" and old[0] == "None"):
+        e.write_path(r.frame, r.local, list(r.proj), ("Some", args[1]))
+    return Ref(r.frame, r.local, list(r.proj) + [("field", 0)])
+
+
 STD_MODELS = [
+    (r"^(?:std::option::)?Option::<.*>::(take|replace|insert|get_or_insert)$", ext_opt_mutators),
+    (r"^(?:std::option::)?Option::<.*>::(unwrap|expect)$", ext_opt_unwrap),
     # formatting is only ever used to build error texts: opaque
     (r"^core::fmt::rt::Argument::<'_>::new_(?:debug|display)::<.*>$", lambda e, m, a: ("fmt_arg",)),
     (r"^std::fmt::Arguments::<'_>::(?:new|new_const|from_str|from_str_nonconst)(?:::<.*>)?$", lambda e, m, a: ("fmt_args",)),
